@@ -22,6 +22,8 @@
  * Author(s):  Michael Wybrow
 */
 
+#include <algorithm>
+
 #include "libavoid/hyperedge.h"
 #include "libavoid/hyperedgetree.h"
 #include "libavoid/mtst.h"
@@ -233,6 +235,23 @@ ConnRefSet HyperedgeRerouter::calcHyperedgeConnectors(void)
     {
         if (m_root_junction_vector[i])
         {
+            // The same hyperedge may have been registered more than once,
+            // through several of its junctions.  It is rerouted once, for
+            // the first registration; the others are left empty.
+            bool alreadyRegistered = false;
+            for (size_t k = 0; (k < i) && !alreadyRegistered; ++k)
+            {
+                alreadyRegistered = (std::find(
+                        m_deleted_junctions_vector[k].begin(),
+                        m_deleted_junctions_vector[k].end(),
+                        m_root_junction_vector[i]) !=
+                        m_deleted_junctions_vector[k].end());
+            }
+            if (alreadyRegistered)
+            {
+                continue;
+            }
+
             // Follow objects attached to junction to find the hyperedge.
             bool valid = findAttachedObjects(i, m_root_junction_vector[i], nullptr,
                     allRegisteredHyperedgeConns);
